@@ -160,6 +160,11 @@ func (w *World) genFunc(ctr *FuncContract) (rep *FuncReport) {
 			}
 		}
 		for i, cl := range ctr.Ensures {
+			if cl.Assumed {
+				// ensures-assumed: callers may rely on it, the body is not checked against it (reported as an assumption)
+				e.assumes["assumed postcondition (not proved) of "+ctr.Pkg+"."+ctr.Name+": "+cl.Text] = true
+				continue
+			}
 			t, err := e.evalBool(env2, cl.Expr)
 			if err != nil {
 				rep.Err = fmt.Errorf("%s:%d: ensures %s: %v", ctr.File, cl.Line, cl.Text, err)
